@@ -24,6 +24,7 @@ type ctx struct {
 	counts  map[string]int
 	samples []string
 	only    string // replay: only emit the case with this id
+	dialect string // restrict generated cases to one dialect ("" = mix)
 	nontriv map[[16]byte]struct{}
 }
 
@@ -59,6 +60,7 @@ func run(suite string, args []string) {
 	out := fs.String("out", "", "case file (default stdout)")
 	stats := fs.String("stats", "", "statistics JSON file")
 	only := fs.String("only", "", "emit only the case with this id")
+	dialect := fs.String("dialect", "", "restrict to one dialect")
 	fs.Parse(args)
 
 	fn, ok := suites[suite]
@@ -83,7 +85,7 @@ func run(suite string, args []string) {
 		defer f.Close()
 	}
 	c := &ctx{seed: *seed, tier: *tier, n: *n, rng: rand.New(rand.NewSource(*seed)), w: bufio.NewWriterSize(f, 1<<20),
-		counts: map[string]int{}, only: *only, nontriv: map[[16]byte]struct{}{}}
+		counts: map[string]int{}, only: *only, dialect: *dialect, nontriv: map[[16]byte]struct{}{}}
 	fn(c)
 	c.w.Flush()
 	c.counts["distinct_nontrivial"] = len(c.nontriv)
